@@ -8,7 +8,7 @@ use vcommon::en::{Alpha, W};
 use vcommon::report::*;
 use vcommon::v::{Got, Ref};
 
-fn suffixes(b: &[u8]) -> Vec<Vec<u8>> {
+fn suffixes(b: &[u8], long: bool) -> Vec<Vec<u8>> {
     let mut v = vec![
         vec![0x00],
         vec![0xff, 0xff, 0xff],
@@ -22,6 +22,14 @@ fn suffixes(b: &[u8]) -> Vec<Vec<u8>> {
         if b.len() > k {
             v.push(b[k..].to_vec());
         }
+    }
+    // long suffixes (a length read from the wrong place is then satisfiable); only for short inputs to bound the cost
+    if long && b.len() <= 1200 {
+        v.push(vec![0u8; 300]);
+        v.push(vec![0xffu8; 1100]);
+    }
+    if long && b.len() <= 48 {
+        v.push((0..70000u32).map(|i| (i % 251) as u8).collect());
     }
     v
 }
@@ -43,7 +51,7 @@ fn locality(t: &Target, b: &[u8], g: &Got, _r: &Ref, sink: &mut Sink) {
                 viol(format!("locality: on exactly the consumed {} bytes the result is {:?} instead of the same value", consumed, exact));
             }
             let mut buf: Vec<u8> = Vec::with_capacity(b.len() * 2 + 16);
-            for x in suffixes(b) {
+            for x in suffixes(b, true) {
                 buf.clear();
                 buf.extend_from_slice(b);
                 buf.extend_from_slice(&x);
@@ -57,7 +65,7 @@ fn locality(t: &Target, b: &[u8], g: &Got, _r: &Ref, sink: &mut Sink) {
         }
         Got::Error(_) | Got::Failure(_) => {
             let mut buf: Vec<u8> = Vec::with_capacity(b.len() * 2 + 16);
-            for x in suffixes(b) {
+            for x in suffixes(b, false) {
                 buf.clear();
                 buf.extend_from_slice(b);
                 buf.extend_from_slice(&x);
@@ -91,6 +99,8 @@ fn main() {
         &DTLS_RECORD_HEADER, &SNI_HOSTNAME,
     ];
     all.extend(tagged_ext_targets());
+    let pairs: Vec<&'static Target> = vec![&P_DH_NEW, &P_DH_OLD, &P_ECDH_NEW, &P_ECDH_OLD, &P_PT_NEW, &P_PT_OLD];
+    all.extend(pairs.iter().copied());
     if let Some(v) = run.load_replay() {
         if v["case"]["kind"] == "history" {
             machinery_failure(run.prop, "defragmenter histories are replayed with ./check C07 --replay");
@@ -127,6 +137,39 @@ fn main() {
     sink.merge(struct_sweep(&run, &[&EC_POINT], &cat::ec_points(), 1, &sfx, 16, &locality));
     sink.merge(struct_sweep(&run, &[&SIGNED, &SIGNED_OLD], &cat::signatures(true, thorough), d, &sfx, 40, &locality));
     sink.merge(struct_sweep(&run, &[&SIGNED, &SIGNED_OLD], &cat::signatures(false, thorough), d, &sfx, 40, &locality));
+    // content + signature under both flag values and both signature encodings, with several opaque-content
+    // patterns (the first signature bytes then read as small / large lengths in the other form)
+    for style in [0u8, 1, 2, 3, 4] {
+        use vcommon::en::with_fill_style as wfs;
+        let sigs: Vec<W> = wfs(style, || cat::signatures(true, false)).into_iter().chain(wfs(style, || cat::signatures(false, false))).collect();
+        let mut v: Vec<W> = Vec::new();
+        for c in wfs(style, || cat::dh_params(false)).iter().step_by(5) {
+            for s in sigs.iter().step_by(2) {
+                let mut w = c.clone();
+                w.append(s);
+                v.push(w);
+            }
+        }
+        sink.merge(struct_sweep(&run, &[&P_DH_NEW, &P_DH_OLD], &v, if style == 0 { d } else { 0 }, &sfx, 32, &locality));
+        let mut v: Vec<W> = Vec::new();
+        for c in wfs(style, cat::ecdh_params).iter().step_by(3) {
+            for s in sigs.iter().step_by(3) {
+                let mut w = c.clone();
+                w.append(s);
+                v.push(w);
+            }
+        }
+        sink.merge(struct_sweep(&run, &[&P_ECDH_NEW, &P_ECDH_OLD], &v, 0, &sfx, 32, &locality));
+        let mut v: Vec<W> = Vec::new();
+        for c in wfs(style, cat::ec_points).iter().step_by(29) {
+            for s in sigs.iter() {
+                let mut w = c.clone();
+                w.append(s);
+                v.push(w);
+            }
+        }
+        sink.merge(struct_sweep(&run, &[&P_PT_NEW, &P_PT_OLD], &v, 0, &sfx, 32, &locality));
+    }
     sink.merge(struct_sweep(&run, &[&SCT], &cat::scts(thorough), d, &sfx, 64, &locality));
     sink.merge(struct_sweep(&run, &[&SCT_LIST], &cat::sct_lists(thorough), d, &sfx, 64, &locality));
 
@@ -183,7 +226,7 @@ fn main() {
     cov.insert("defragmenter_states".into(), json!(hist_states));
     cov.insert("defragmenter_transitions".into(), json!(hist_trans));
     cov.insert("rule".into(), json!(format!(
-        "for each of {} self-delimiting parsers: every catalogue encoding of its family with every combination of <= {} deviations and every string of bounded length over a positional alphabet; on each input b: (L1) if f(b)=Ok(v,rem): rem is pointer-and-content a suffix of b, every non-empty slice reachable from v lies inside the consumed bytes, f(b[..consumed]) returns the same value, and f(b||x) returns the same value and consumption for up to 11 suffixes x (a zero byte, ff ff ff, a copy of b, a valid HelloRequest record, a valid extension, and b without its first 1/2/3/4/5/13 bytes, i.e. the structure's own inner elements repeated after it); (L2) if f(b) is a non-Incomplete error, f(b||x) is still an error; (L3) defragmenter: the C07 exploration with region-relative slice positions. Non-trivial: not cut inside a fixed header",
+        "for each of {} self-delimiting parsers: every catalogue encoding of its family with every combination of <= {} deviations and every string of bounded length over a positional alphabet; on each input b: (L1) if f(b)=Ok(v,rem): rem is pointer-and-content a suffix of b, every non-empty slice reachable from v lies inside the consumed bytes, f(b[..consumed]) returns the same value, and f(b||x) returns the same value and consumption for up to 14 suffixes x (a zero byte, ff ff ff, a copy of b, a valid HelloRequest record, a valid extension, and b without its first 1/2/3/4/5/13 bytes, i.e. the structure's own inner elements repeated after it, and - for inputs up to 1200 bytes - 300 zero bytes and 1100 ff bytes, for inputs up to 48 bytes also 70000 counting bytes); (L2) if f(b) is a non-Incomplete error, f(b||x) is still an error; (L3) defragmenter: the C07 exploration with region-relative slice positions. Non-trivial: not cut inside a fixed header",
         all.len(), d)));
     let code = run.finish(
         &sink,
